@@ -95,7 +95,15 @@ NOT_JSON_DOCS = ["", "   ", "\n", "{", "[", '{"@id": "http://a/b"', '[{"@id": "h
                  "title: x", "<xml/>", "\ufeff{}", "{'a': 1}", "nul", "[1, 2", '{"a" 1}', "\x00\x01\x02",
                  '"unterminated', "{\"@graph\": [}"]
 
-LD_REJECT_DOCS = [
+# documents on which json-gold v0.4.0 itself panics (nil term definitions): JSON-LD processing rejects them too
+LD_PANIC_DOCS = [
+    '{"@context": {"a": {"@id": "http://a.ml/a", "@container": null}}, "a": 1}',
+    '{"@context": {"a": {"@id": "http://a.ml/a", "@container": "@graph"}}, "a": 1}',
+    '{"@context": {"a": {"@id": "http://a.ml/a", "@container": 5}}, "a": 1}',
+    '{"@context": {"a": {"@id": "http://a.ml/a", "@protected": 5}}, "a": 1}',
+]
+
+LD_REJECT_DOCS = LD_PANIC_DOCS + [
     '{"@context": 5}',
     '{"@context": {"a": 5}}',
     '{"@id": 5}',
